@@ -80,6 +80,23 @@ def _zero_constraint_counts(
   efc_nnz_out[worldid] = 0
 
 
+@wp.kernel
+def _efc_nnz_overflow(
+  # Data in:
+  njmax_nnz_in: int,
+  # In:
+  efc_nnz_in: wp.array[int],
+  # Data out:
+  overflow_out: wp.array[int],
+):
+  worldid = wp.tid()
+
+  # efc_nnz counts the non-zeros requested by all row builders, including rows that were
+  # dropped because their non-zeros did not fit
+  if efc_nnz_in[worldid] > njmax_nnz_in:
+    overflow_out[worldid] = overflow_out[worldid] | types.OverflowType.NJMAX_NNZ
+
+
 @wp.func
 def _efc_row(
   # Model:
@@ -5835,3 +5852,13 @@ def make_constraint(m: types.Model, d: types.Data):
             d.efc.frictionloss,
           ],
         )
+
+  if m.is_sparse:
+    # a row whose non-zeros do not fit is dropped by its builder before J_rowadr is written, so
+    # the overflow cannot be recovered from the rows afterwards: flag it where the demand is known
+    wp.launch(
+      _efc_nnz_overflow,
+      dim=d.nworld,
+      inputs=[d.njmax_nnz, efc_nnz],
+      outputs=[d.overflow],
+    )
